@@ -76,6 +76,7 @@ def run(ck):
     ck.rule("C02.R3", "per-thread default is written only by set_default/guard drop, never from get_global()", floor=3)
     ck.rule("C02.R4", "global default: single CAS-guarded write, published before INITIALIZED, guarded read", floor=5)
     ck.rule("C02.R5", "EXISTS set by both install paths", floor=2)
+    ck.rule("C02.R7", "the count of live scopes cannot wrap: SCOPED_COUNT is at least pointer-sized", floor=2)
     ck.rule("C02.R6", "the re-entrancy flag taken by get_default/get_current is given back on every exit, unwinding included (RAII)", floor=3)
     for cfg in configs:
         F = Facts(cfg)
@@ -90,6 +91,8 @@ def run(ck):
         r5(ck, F, std)
         if std:
             r6(ck, F)
+            from rulekit.query import counter_width
+            counter_width(ck, F, "C02.R7", ("tracing_core::dispatch::",))
     ck.tag = ""
 
 
